@@ -34,7 +34,7 @@ m = {
     "hooks": {
         "guard": "cargo feature `verif-hooks` of open-coroutine-core",
         "enable": "the harness crates depend on open-coroutine-core with features [\"syscall\", \"verif-hooks\"] (path dependency on /repo/core); nothing else turns it on",
-        "baseline_off_cmd": "cd /repo && cargo test --workspace --no-fail-fast --offline",
+        "baseline_off_cmd": "cd /repo && if [ -f /w/lib/nextest.toml ]; then cargo nextest run --workspace --no-fail-fast --tool-config-file pb:/w/lib/nextest.toml --profile pb --test-threads 8 --offline; else cargo test --workspace --no-fail-fast --offline; fi",
         "source_commits": HOOK_COMMITS,
         "add_only": True,
     },
